@@ -487,6 +487,8 @@ enum Bad {
     ParsePanic(String),
     Duplicate(String),
     NotIso(String),
+    /// the bytes written depend on how the writer accepts them
+    Writer(String),
 }
 impl Bad {
     fn kind(&self) -> &'static str {
@@ -498,11 +500,12 @@ impl Bad {
             Bad::ParsePanic(_) => "parser-panic",
             Bad::Duplicate(_) => "statement-twice",
             Bad::NotIso(_) => "not-isomorphic",
+            Bad::Writer(_) => "output-depends-on-writer",
         }
     }
     fn detail(&self) -> &str {
         match self {
-            Bad::Config(s) | Bad::SerError(s) | Bad::SerPanic(s) | Bad::Syntax(s) | Bad::ParsePanic(s) | Bad::Duplicate(s) | Bad::NotIso(s) => s,
+            Bad::Config(s) | Bad::SerError(s) | Bad::SerPanic(s) | Bad::Syntax(s) | Bad::ParsePanic(s) | Bad::Duplicate(s) | Bad::NotIso(s) | Bad::Writer(s) => s,
         }
     }
 }
@@ -527,14 +530,18 @@ const OUTPUT_BOUND: usize = 512 * 1024;
 struct Bounded<'a> {
     buf: &'a mut Vec<u8>,
     limit: usize,
+    /// accept only what fits in the current block of 11 bytes (short writes at every offset of
+    /// every token, as a pipe / ring buffer / block device may do)
+    block: bool,
 }
 impl std::io::Write for Bounded<'_> {
     fn write(&mut self, b: &[u8]) -> std::io::Result<usize> {
         if self.buf.len() + b.len() > self.limit {
             return Err(std::io::Error::other("runaway output: more than 512 KiB written for a small input"));
         }
-        self.buf.extend_from_slice(b);
-        Ok(b.len())
+        let n = if self.block { b.len().min(11 - self.buf.len() % 11) } else { b.len() };
+        self.buf.extend_from_slice(&b[..n]);
+        Ok(n)
     }
     fn flush(&mut self) -> std::io::Result<()> {
         Ok(())
@@ -542,13 +549,25 @@ impl std::io::Write for Bounded<'_> {
 }
 
 fn serialize(case: &Case, quads: &[MQ]) -> Result<String, Bad> {
+    let plain = serialize_to(case, quads, false)?;
+    // the document must not depend on the writer
+    match serialize_to(case, quads, true) {
+        Ok(b) if b == plain => Ok(plain),
+        Ok(b) => {
+            let at = b.bytes().zip(plain.bytes()).position(|(x, y)| x != y).unwrap_or(b.len().min(plain.len()));
+            Err(Bad::Writer(format!("a writer doing short writes received {} bytes, a Vec {}; first difference at byte {at}", b.len(), plain.len())))
+        }
+        Err(e) => Err(Bad::Writer(format!("serialising to a writer doing short writes fails although a Vec works: {}", e.detail()))),
+    }
+}
+fn serialize_to(case: &Case, quads: &[MQ], block: bool) -> Result<String, Bad> {
     let cfg = config(case).map_err(Bad::Config)?;
     // The output is written through a bounded writer: a serializer that loops (e.g. a blank
     // node wrongly treated as its own sub-tree) must end in an I/O error, not exhaust memory.
     let mut buf: Vec<u8> = vec![];
     let r: Result<Result<(), String>, String> = if case.turtle {
         let g: Vec<[SimpleTerm<'static>; 3]> = quads.iter().map(MQ::to_triple).collect();
-        let w = Bounded { buf: &mut buf, limit: OUTPUT_BOUND };
+        let w = Bounded { buf: &mut buf, limit: OUTPUT_BOUND, block };
         catch(|| {
             let mut s = TurtleSerializer::new_with_config(w, cfg);
             s.serialize_graph(&g).map_err(|e| e.to_string())?;
@@ -556,7 +575,7 @@ fn serialize(case: &Case, quads: &[MQ]) -> Result<String, Bad> {
         })
     } else {
         let d: Vec<Spog<SimpleTerm<'static>>> = quads.iter().map(MQ::to_spog).collect();
-        let w = Bounded { buf: &mut buf, limit: OUTPUT_BOUND };
+        let w = Bounded { buf: &mut buf, limit: OUTPUT_BOUND, block };
         catch(|| {
             let mut s = TrigSerializer::new_with_config(w, cfg);
             s.serialize_dataset(&d).map_err(|e| e.to_string())?;
